@@ -271,6 +271,85 @@ def exit_codes(repo):
     return rules, fallback, literals
 
 
+def fn_body(repo, rel, name):
+    """source text of fn `name` in `rel` (comments stripped, whitespace collapsed); raises if the fn is gone"""
+    src = Source.get(repo, rel)
+    start = None
+    for i, line in enumerate(src.lines):
+        m = FN_RE.match(line)
+        if m and m.group(1) == name and not src.is_test(i + 1):
+            start = i
+            break
+    if start is None:
+        raise RuntimeError(f"translate/panic_sites: fn {name} not found in {rel}")
+    indent = len(src.lines[start]) - len(src.lines[start].lstrip())
+    end = len(src.lines)
+    for j in range(start + 1, len(src.lines)):
+        line = src.lines[j]
+        if src.is_test(j + 1):
+            end = j
+            break
+        m = FN_RE.match(line)
+        if m and len(line) - len(line.lstrip()) <= indent:
+            end = j
+            break
+    body = "\n".join(l.split("//")[0] for l in src.lines[start:end])
+    return re.sub(r"\s+", " ", body)
+
+
+# repaired shape of each formerly panicking site: (flag, file, fn, [patterns that must occur], [patterns that must not])
+C = "renamify-core/src/"
+GUARDS = [
+    ("lineAfterChecked", C + "scanner.rs", "generate_hunks",
+     [r"line_string \.get\(match_col\.\.\)"], [r"line_string\[match_col\.\.\]"]),
+    ("resolverPrefixChecked", C + "ambiguity/resolver.rs", "try_language_heuristics",
+     [r"line\.get\(\.\.match_pos\)"], [r"line\[\.\.match_pos\]"]),
+    ("diffAfterLineChecked", C + "preview/diff.rs", "render_diff",
+     [r"after_line \.get\(col\.\.\)"], [r"after_line\[col"]),
+    ("diffHighlightChecked", C + "preview/diff.rs", "highlight_line_with_hunks",
+     [r"line\.get\(last_end\.\.col\)", r"line\.get\(col\.\.end\)", r"line\.get\(last_end\.\.\)"], [r"&line\["]),
+    ("matchesLineChecked", C + "preview/matches.rs", "render_matches",
+     [r"line_before\.get\(\.\.col\)", r"line_before\.get\(col\.\.actual_end\)", r"line_before \.?get\(actual_end\.\.\)|line_before\.get\(actual_end\.\.\)"],
+     [r"line_before\["]),
+    ("ciEmptyAndLengthGuard", C + "coercion.rs", "replace_case_insensitive",
+     [r"if pattern_lower\.is_empty\(\) \|\| text_lower\.len\(\) != text\.len\(\) \|\| pattern_lower\.len\(\) != pattern\.len\(\) \{ return text\.to_string\(\); \}"], []),
+    ("ciSlicesChecked", C + "coercion.rs", "replace_case_insensitive",
+     [r"text_lower \.get\(last_end\.\.\)", r"text\.get\(last_end\.\.absolute_start\)", r"text\.get\(last_end\.\.\)"],
+     [r"text_lower\[", r"&text\["]),
+    ("coercionPartChecked", C + "coercion.rs", "apply_coercion",
+     [r"container_without_prefix\.get\(pos\.\.pos \+ old_pattern\.len\(\)\)\?"], [r"container_without_prefix\[pos"]),
+    ("applyOrigChecked", C + "apply.rs", "apply_content_edits_with_content",
+     [r"original_content\.get\(\*start\.\.\*end\)"], [r"original_content\[\*start\.\.\*end\]"]),
+    ("applyModifiedChecked", C + "apply.rs", "apply_content_edits_with_content",
+     [r"if modified\.get\(\*start\.\.\*end\)\.is_none\(\) \{ return Err"], []),
+    ("lockAgeSaturating", C + "lock.rs", "acquire",
+     [r"current_time\.saturating_sub\(timestamp\)"], [r"current_time - timestamp"]),
+    ("emptyVariantSkipped", C + "case_model.rs", "generate_variant_map_internal",
+     [r"if search_variant\.is_empty\(\) \{ continue; \} map\.entry\(search_variant\)", r"&& !search\.is_empty\(\)"], []),
+    ("upperRunCountsChars", C + "case_constraints.rs", "has_consecutive_uppercase",
+     [r"let sequence_len = i - start;", r"\(2\.\.=sequence_len\)"], [r"sequence\.len\(\)"]),
+    ("emptyLiteralRejected", C + "scanner.rs", "create_simple_plan",
+     [r"if pattern\.is_empty\(\) && !is_regex \{ return Err"], []),
+    ("jsonPlanChecked", C + "output.rs", None,
+     [r"serde_json::to_value\(&self\.plan\)\.unwrap_or\(serde_json::Value::Null\)"], [r"\"plan\": self\.plan"]),
+    ("acronymAsciiGuard", C + "acronym.rs", "find_longest_match",
+     [r"if !bytes\[i\]\.is_ascii\(\) \{ break; \} let ch = bytes\[i\] as char;"], []),
+]
+
+
+def guards(repo):
+    out = []
+    for flag, rel, fn, must, must_not in GUARDS:
+        if fn is None:
+            src = Source.get(repo, rel)
+            body = re.sub(r"\s+", " ", "\n".join(l.split("//")[0] for l in src.lines[: src.test_from - 1]))
+        else:
+            body = fn_body(repo, rel, fn)
+        ok = all(re.search(p, body) for p in must) and not any(re.search(p, body) for p in must_not)
+        out.append((flag, ok, rel, fn or "<file>"))
+    return out
+
+
 def run():
     repo = common.REPO
     sites, mode = inventory(repo)
@@ -313,5 +392,15 @@ def run():
     out += [f"  ({lean_str(f)}, {lean_str(fn)}, {n})" + ("," if i + 1 < len(literals) else "") for i, (f, fn, n) in enumerate(literals)]
     out += ["]", "", "end Gen.ExitCodes", ""]
     res.append(("Gen/ExitCodes.lean", common.write_if_changed(os.path.join(common.LEAN, "RModel/Gen/ExitCodes.lean"), "\n".join(out))))
-    run.last = {"mode": mode, "sites": sites}
+    gs = guards(repo)
+    out = ["/- GENERATED by translate/panic_sites.py: does the source have the repaired (checked) shape at each formerly",
+           "   panicking site?  `true` = the guard / checked slice is there, `false` = the old unchecked shape (or anything else).",
+           "   The model in RModel/Model/Panics.lean selects the `…Old` or the checked function by these flags — do not edit -/",
+           "namespace Gen.PanicGuards", ""]
+    for flag, ok, rel, fn in gs:
+        out.append(f"/-- {rel} :: {fn} -/")
+        out.append(f"def {flag} : Bool := {'true' if ok else 'false'}")
+    out += ["", "end Gen.PanicGuards", ""]
+    res.append(("Gen/PanicGuards.lean", common.write_if_changed(os.path.join(common.LEAN, "RModel/Gen/PanicGuards.lean"), "\n".join(out))))
+    run.last = {"mode": mode, "sites": sites, "guards": {g[0]: g[1] for g in gs}}
     return res
